@@ -43,6 +43,8 @@ pub struct Check {
     pub assumptions: &'static [&'static str],
     /// wall-clock budget in seconds (quick, thorough)
     pub budget_s: (u64, u64),
+    /// worker deaths by memory exhaustion and watchdog timeouts are not verdicts of this check
+    pub ignore_resource_deaths: bool,
 }
 
 fn st(space: &'static str, f: CaseFn, bound: (u32, u32), tiers: u8, what: &'static str) -> Stage {
@@ -67,6 +69,7 @@ pub fn checks() -> Vec<Check> {
             "only prototypes satisfying the documented validate_* rules and in-range, correctly typed values are generated (rejected inputs belong to C10)",
             "values come from finite catalogues (boundaries, walking bits, float specials), not all 2^64 payloads",
         ],
+        ignore_resource_deaths: false,
         budget_s: (45, 900),
     },
     Check {
@@ -84,6 +87,7 @@ pub fn checks() -> Vec<Check> {
             "e57spec encodes the ASTM E2807 layout as observed in the libE57Format/E57RefImpl-written files bundled in /repo/testdata (all of which it validates without complaint)",
             "element names not present in any bundled foreign file are taken from the standard from memory (listed in DESIGN.md §5 C02)",
         ],
+        ignore_resource_deaths: false,
         budget_s: (50, 900),
     },
     Check {
@@ -101,6 +105,7 @@ pub fn checks() -> Vec<Check> {
             "only layouts libE57Format accepts are offered (packets skipped by length, empty byte streams, <4 padding bytes, 4-byte aligned sections, infoset-preserving lexical variants)",
             "scenes are 10 fixed small scenes (<=5 points per cloud)",
         ],
+        ignore_resource_deaths: false,
         budget_s: (50, 900),
     },
     Check {
@@ -117,6 +122,7 @@ pub fn checks() -> Vec<Check> {
             "strings are built from characters XML can carry; carriage return excluded (XML parsers normalise it)",
             "file GUID non-empty (documented requirement); partial limit overrides are not expected to round-trip",
         ],
+        ignore_resource_deaths: false,
         budget_s: (50, 900),
     },
     Check {
@@ -133,6 +139,7 @@ pub fn checks() -> Vec<Check> {
             "where the statement is silent (Cartesian direction derived from a spherical direction and vice versa) both Invalid and the converted direction are accepted",
             "an Err is accepted if anywhere in the cloud an invalid-state value outside its documented set is stored",
         ],
+        ignore_resource_deaths: false,
         budget_s: (50, 900),
     },
     Check {
@@ -149,6 +156,7 @@ pub fn checks() -> Vec<Check> {
         assumptions: &[
             "tampering clause in its weakest sound form: any descriptor yields Err or exactly `length` bytes equal to the logical bytes after the 16-byte header",
         ],
+        ignore_resource_deaths: false,
         budget_s: (45, 900),
     },
     Check {
@@ -165,7 +173,28 @@ pub fn checks() -> Vec<Check> {
             "files are small enough that the operation list reads every page",
             "3-bit and <=32-bit-burst clauses rest on the affinity of CRC (verified on all executed 2-bit flips of one page), not on executing all 9.2e10 triples",
         ],
+        ignore_resource_deaths: false,
         budget_s: (55, 1200),
+    },
+    Check {
+        id: "C08",
+        level: "model_checking",
+        stages: vec![Stage { timeout_s: 30, ..st("c08.sweep", c08::sweep_nopanic, (0, 0), 3, "33 seeds (e57spec scenes, writer files, 14 bundled files) x the complete single-mutation menu (header fields, XML numeric/type slots, element delete/duplicate/move, prototype conspiracies, section and packet fields, payload flips, truncation/extension, unsealed flips); thorough: pairs with a second numeric mutation and all 64 option vectors; every read entry point per mutant") }],
+        extra: None,
+        rule: "mutation neighbourhood enumerated completely: every item of the finite, ordered menu of every seed; each mutant runs validate_crc, raw_xml, new, descriptor listing, raw and simple iteration (8 / 64 option vectors, to the first Err/None or the step cap) and blob extraction under catch_unwind in a subprocess; overflow checks and debug assertions on; distinct = distinct mutant bytes; non-trivial = mutant ran through all entry points",
+        assumptions: &["'all byte strings' is covered as the <=1 (thorough <=2) mutation neighbourhood of the seed corpus under a fixed menu", "memory exhaustion and hangs are attributed to C09"],
+        ignore_resource_deaths: true,
+        budget_s: (55, 1500),
+    },
+    Check {
+        id: "C09",
+        level: "model_checking",
+        stages: vec![Stage { timeout_s: 30, ..st("c09.sweep", c08::sweep_budget, (0, 0), 3, "the C08 sweep with per-call budgets: bytes allocated and peak live bytes <= 4096*L + 64 MiB, device bytes requested <= 4*L + 64 KiB (validate_crc 2*L), 30 s watchdog, iterators yield <= recordCount items; live-byte cap 2 GiB per worker") }],
+        extra: None,
+        rule: "same enumeration as C08; a counting global allocator and a counting device measure every single call (open, each next(), each blob); a worker that exceeds the live-byte cap exits with a distinguished status and the case is reported; distinct = distinct mutant bytes; non-trivial = all calls within budget",
+        assumptions: &["budgets are deliberately loose (legitimate worst case: one 64 KiB packet of 1-bit values ~ 1800*L)", "watchdog is a timeout, not a termination proof"],
+        ignore_resource_deaths: false,
+        budget_s: (55, 1500),
     },
     Check {
         id: "C10",
@@ -184,6 +213,7 @@ pub fn checks() -> Vec<Check> {
             "prototype shapes the documentation does not forbid (duplicate names) are judged by no-panic and read-back only",
             "API misuse outside the listed classes (add_point after finalize, second finalize) is judged by no-panic and by read-back of whatever finalize reported as success",
         ],
+        ignore_resource_deaths: false,
         budget_s: (45, 900),
     },
     Check {
@@ -196,6 +226,7 @@ pub fn checks() -> Vec<Check> {
             "logical length capped at 4 pages; 10 write sizes and 12 seek targets chosen around page boundaries",
             "reader seeks beyond the end or into checksum bytes are not specified by the statement and not judged",
         ],
+        ignore_resource_deaths: false,
         budget_s: (45, 900),
     },
     Check {
@@ -211,6 +242,7 @@ pub fn checks() -> Vec<Check> {
         extra: None,
         rule: "full products; writer output compared bit by bit with e57spec::bits (value - min, LSB first, contiguous), total stream length exactly ceil(N*w/8); reader fed with independently encoded streams under every cut; evaluations count inner (value, flush/split) combinations; distinct = distinct file / stream",
         assumptions: &["only same-width streams are driven through the buffers, i.e. exactly the phases the library can produce", "values inside the declared range only (out-of-range belongs to C10)"],
+        ignore_resource_deaths: false,
         budget_s: (50, 900),
     },
     Check {
@@ -229,6 +261,7 @@ pub fn checks() -> Vec<Check> {
             "ambiguous limits (variant differing between min and max, ScaledInteger limits) accept either the limit range, the type range or the scaled limit range, the same for all values of a cloud",
             "limits that are not a range (lo > hi, NaN) only require the invariants; an Err from the reader is accepted there",
         ],
+        ignore_resource_deaths: false,
         budget_s: (50, 900),
     },
     Check {
@@ -241,6 +274,7 @@ pub fn checks() -> Vec<Check> {
         extra: None,
         rule: "crash image(k,c) = device writes 0..k applied completely + first c bytes of write k; every (k,c) of every program is built and offered to the real reader; accepted images must stem from inside finalize, list the completed file's content and answer every read op with Err or the completed file's result; evaluations = crash images; distinct = distinct image bytes per case; non-trivial = case with at least one image judged",
         assumptions: &["writes reach the device in issue order; a torn write leaves a prefix of the new bytes followed by the old bytes (as the statement says)"],
+        ignore_resource_deaths: false,
         budget_s: (50, 900),
     },
     Check {
@@ -255,6 +289,7 @@ pub fn checks() -> Vec<Check> {
         extra: None,
         rule: "faults: the fault-free run numbers the device operations, then one run per index with exactly that operation failing; the call in progress must return Err, finalize Ok implies the fault-free bytes; chunking: deviation-bounded DFS over the short-transfer choice at every transfer, bytes / results must equal the full-transfer run; distinct = distinct (bytes | failing step); non-trivial = fault fired / at least one short transfer",
         assumptions: &["a short transfer never returns 0 bytes for a non-empty request (that would be EOF / WriteZero, i.e. a fault)", "faults that fire while the writer is dropped are exempt from the 'call returns Err' clause"],
+        ignore_resource_deaths: false,
         budget_s: (50, 900),
     },
     Check {
@@ -267,6 +302,7 @@ pub fn checks() -> Vec<Check> {
         extra: Some(c17::extra),
         rule: "every result on a reader with history must equal the memoised result of the same operation on a freshly opened reader over the same bytes (Ok payload hashes exact, Err by class and message); BFS: canonical state = (cached page number, page buffer) through the verification hook, expanded to a fixpoint, every op evaluated in every reachable cache state; distinct_nontrivial = distinct cache states / histories",
         assumptions: &["the canonical-state abstraction is only used to prune the BFS; every kept state is still checked against the fresh-reader oracle", "alphabet: raw/simple iterators with take 0, 1, all per cloud; every image blob and mask; a bogus blob descriptor; xml; pointclouds; images"],
+        ignore_resource_deaths: false,
         budget_s: (55, 900),
     },
     Check {
@@ -282,6 +318,7 @@ pub fn checks() -> Vec<Check> {
         extra: None,
         rule: "deviation-bounded DFS: all cases with at most d non-default choices; bounds compared numerically with an independent fold over the harness's point list; non-trivial = cloud with points",
         assumptions: &["NaN coordinates are excluded (min/max over NaN is not defined by the statement)", "partial limit overrides are not judged"],
+        ignore_resource_deaths: false,
         budget_s: (45, 900),
     }]
 }
